@@ -2,10 +2,22 @@ use crate::framework::Monitor;
 
 pub mod behav;
 pub mod c02;
+pub mod c05;
+pub mod c10;
+pub mod c10_inv;
+pub mod c10_model;
+pub mod c11;
 pub mod c12;
 pub mod c14;
 pub mod c14_fmt;
+pub mod c15;
+pub mod c15_model;
+pub mod c19;
+pub mod c19_model;
+pub mod c19_probe;
+pub mod c20;
 pub mod exec;
+pub mod fstree;
 pub mod textmon;
 pub mod triggers;
 
@@ -19,6 +31,12 @@ pub fn make(id: &str) -> Option<Box<dyn Monitor>> {
         "C03" => Some(Box::new(textmon::C03::default())),
         "C18" => Some(Box::new(textmon::C18::default())),
         "C14" => Some(Box::new(c14::C14::default())),
+        "C19" => Some(Box::new(c19::C19::default())),
+        "C11" => Some(Box::new(c11::C11::default())),
+        "C20" => Some(Box::new(c20::C20::default())),
+        "C05" => Some(Box::new(c05::C05::default())),
+        "C15" => Some(Box::new(c15::C15::default())),
+        "C10" => Some(Box::new(c10::C10::default())),
         "C12" => Some(Box::new(c12::C12::default())),
         _ => None,
     }
